@@ -53,6 +53,12 @@ def replay_file(path):
         print('outcome:', rep['outcome'])
         print('violated clauses on the real code:', sorted(rep['violated']))
         return 1 if rep['violated'] else 0
+    if 'replayer' in d:
+        r = d['replayer']
+        viol = getattr(importlib.import_module(r['module']), r['function'])(*r['args'])
+        print('call   :', d.get('call'))
+        print('violated clauses on the real code:', json.dumps(viol, indent=1))
+        return 1 if viol else 0
     if 'part' in d:
         from bounded import parts
         return parts.replay(d)
